@@ -15,6 +15,14 @@ def hx_leg(fam, profile="chk", features=(), props=None, **kw):
 
 
 def plan(pid, tier):
+    legs = _plan(pid, tier)
+    # the 17-/24-/32-column archetypes (build with 32_components): heap-owning, zero-sized Drop and tracked types as last columns
+    if pid in ("C01", "C02", "C04", "C06", "C07", "C09", "C12", "C13"):
+        legs.append(hx_leg("SC32", features=("32_components",), props=[pid] + (["C01", "C02"] if pid == "C13" else []), **(dict(drop_world=True) if pid in ("C04", "C13") else {})))
+    return legs
+
+
+def _plan(pid, tier):
     q = tier == "quick"
     if pid == "C01":
         return [hx_leg("SA", props=["C01"]), hx_leg("SB", props=["C01"]), hx_leg("SD", props=["C01"]), hx_leg("SP", props=["C01"]), hx_leg("SC", features=("wide",), props=["C01"])]
